@@ -439,8 +439,23 @@ struct Machine {
         return ps.empty() ? -1 : ps[s.pick(ps.size())];
     }
     void op_packet() {
-        static const unsigned PK[] = {0, 1, 2, 3, 4, 5, 6, 6, 7, 7, 7, 8};
-        switch (PK[s.pick(12)]) {
+        static const unsigned PK[] = {0, 1, 2, 3, 4, 5, 6, 6, 7, 7, 7, 8, 9, 9};
+        switch (PK[s.pick(14)]) {
+            case 9: {  // move assignment between two different packets, empty ones included; the moved-from wrapper is destroyed
+                int a = pick_packet(false), b = pick_packet(false);
+                if (a < 0 || b < 0 || a == b) return;
+                const PDU* moved = slots[b].packet->pdu();
+                Timestamp ts = slots[b].packet->timestamp();
+                *slots[a].packet = std::move(*slots[b].packet);
+                step("packet s" + std::to_string(a) + " = move(packet s" + std::to_string(b) + ")" + (moved ? "" : " (empty source)") + "; delete moved-from wrapper");
+                VCHECK(ctx, slots[a].packet->pdu() == moved, "C12:Packet:move-assign:target-does-not-hold-the-source-pdu", history());
+                VCHECK(ctx, slots[a].packet->timestamp().seconds() == ts.seconds() && slots[a].packet->timestamp().microseconds() == ts.microseconds(),
+                       "C12:Packet:move-assign:timestamp-not-taken", history());
+                slots[a].model = slots[b].model;
+                delete slots[b].packet; slots[b].packet = nullptr; slots[b].model.clear();
+                ctx.label("packet-move-assign");
+                break;
+            }
             case 6: {  // an empty (default-constructed) Packet
                 int c = pick_free();
                 slots[c].packet = new Packet();
